@@ -1,6 +1,33 @@
-//! C08 — implementation side of the correspondence (stub).
+//! C08 — linearizability tester: implementation side of the correspondence + oracle inputs.
+//! Every history is run through the real `LinearizabilityTester`; the model must reproduce every
+//! result text, `is_consistent`, `serialized_history` (identical), `len` and `Debug`; the oracle
+//! re-decides the history by brute force from the definition.
 use srh::out::*;
+use srh::rng::Rng;
+use srh::sem_util::*;
+use stateright::semantics::register::Register;
+
 fn main() {
-    let out = Out::new();
+    quiet_panics();
+    let mut out = Out::new();
+    let mut r = Rng::new(seed());
+    let th = thorough();
+    // 1. exhaustive small scope over Register with two values
+    let init = Register(0u8);
+    let (nth, len) = if th { (3, 5) } else { (3, 4) };
+    let mut n = 0u64;
+    exhaustive_register(nth, len, &mut |h| {
+        n += 1;
+        emit_history(&mut out, &init, h, 1, "x-");
+        if n % 5000 == 1 { out.sample(&format!("exhaustive: (reg 0) {}", calls_sx::<Register<u8>>(h))); }
+    });
+    if !th {
+        // quick tier: the 5-event layer with two threads
+        exhaustive_register(2, 5, &mut |h| {
+            if h.len() == 5 { emit_history(&mut out, &init, h, 1, "x-"); }
+        });
+    }
+    // 2. seeded histories, all object kinds
+    seeded(&mut out, &mut r, arg_u64("--n", if th { 200_000 } else { 12_000 }) as usize, 1);
     out.finish();
 }
